@@ -643,6 +643,7 @@ class Oracle:
         self.prefix = list(prefix)
         self.pos = 0
         self.taken = []
+        self.tags = []
         self.pending = []
 
     def choose(self, n, tag=''):
@@ -657,6 +658,7 @@ class Oracle:
             for alt in range(1, n):
                 self.pending.append(self.taken + [(alt, n)])
         self.taken.append((c, n))
+        self.tags.append('%s:%d/%d' % (tag, c, n))
         self.pos += 1
         return c
 
@@ -890,7 +892,7 @@ class State:
         feas = [i for i, c in enumerate(conds) if self.feasible(c)]
         if not feas:
             raise PathEnd()
-        k = self.oracle.choose(len(feas), tag)
+        k = self.oracle.choose(len(feas), '%s@%s' % (tag, self.cur_line))
         i = feas[k]
         self.assume(conds[i])
         return i
@@ -961,9 +963,23 @@ class State:
                 continue
             break
         mi = self.merge_info.get(arr.get_id())
+        if mi is not None and len(mi) > 3 and not (rr in ('pre', 'par')):
+            # a reference at a known offset from the bound of the frame array
+            d = z3.simplify(ref - mi[3])
+            if z3.is_int_value(d):
+                if d.as_long() >= 0:
+                    return self.smart_select(mi[1], ref)
+                def differs(e):
+                    de = z3.simplify(ref - e)
+                    if z3.is_int_value(de):
+                        return de.as_long() != 0
+                    re_ = self.region(e)
+                    return re_ is not None and rr is not None and re_ != rr
+                if all(differs(e) for e in mi[2]):
+                    return self.smart_select(mi[0], ref)
         if mi is not None and rr in ('pre', 'par'):
             # frame array  lambda r. if r < bound and r not in excluded then old[r] else junk[r]
-            old, junk, excluded = mi
+            old, junk, excluded = mi[0], mi[1], mi[2]
             clear = True
             for e in excluded:
                 if z3.is_int_value(e) and cref is not None:
@@ -987,7 +1003,7 @@ class State:
             keep = z3.Or(keep, extra_keep(r))
         lam = z3.Lambda([r], z3.If(keep, z3.Select(old, r), z3.Select(junk, r)))
         if extra_keep is None:
-            self.merge_info[lam.get_id()] = (old, junk, list(excluded))
+            self.merge_info[lam.get_id()] = (old, junk, list(excluded), bound)
             self.pre_keep.append(lam)
         return lam
 
